@@ -1,7 +1,7 @@
 """Abstract driver-side objects (driver, group, vectors, elements) for constant evaluation."""
 from __future__ import annotations
 
-from ..absint import Cls, Const, Dct, Lst, Obj, Term
+from ..absint import Cls, Const, Dct, Lst, Obj, Term, Tup, show
 from ..model import Program
 
 IE = "indi.device.properties.instance.elements"
@@ -74,15 +74,65 @@ class DevB(Driver):
 SYN_DEVICES_MOD = "indilint_synthetic.devices"
 
 
-def build_drivers(it, p, names=(("DevA", "DEVA"), ("DevB", "DEVB")), router=None):
+def _reachable_objs(root):
+    seen, order, todo = set(), [], [root]
+    while todo:
+        x = todo.pop(0)
+        if id(x) in seen:
+            continue
+        seen.add(id(x))
+        if isinstance(x, Obj):
+            order.append(x)
+            todo.extend(x.attrs.values())
+        elif isinstance(x, Dct):
+            for k, v in x.pairs:
+                todo.append(k)
+                todo.append(v)
+        elif isinstance(x, (Lst, Tup)):
+            todo.extend(x.items)
+    return order
+
+
+def label_world(it, p, drivers, fr):
+    """Readable labels (vec:<device>.<name>, el:<device>.<vector>.<name>) read through the public 'name' and
+    'vector' properties of the constructed objects, so verdicts do not depend on private attribute names."""
+    from ..model import Undecided
+    vbase = p.cls(f"{IV}.Vector")
+    ebase = p.cls(f"{IE}.Element")
+
+    def public(o, attr):
+        v = it.get_attr(o, attr, None, fr)
+        return v
+
+    for dname, d in drivers.items():
+        for o in _reachable_objs(d):
+            if o.cls is None:
+                continue
+            if vbase in o.cls.mro:
+                n = public(o, "name")
+                if not isinstance(n, Const):
+                    raise Undecided(f"constructed vector has no constant public name ({show(n)})")
+                o.label = f"vec:{dname}.{n.v}"
+            elif ebase in o.cls.mro:
+                n = public(o, "name")
+                v = public(o, "vector")
+                vn = public(v, "name") if isinstance(v, Obj) else None
+                if not isinstance(n, Const) or not isinstance(vn, Const):
+                    raise Undecided("constructed element has no constant public name / vector name")
+                o.label = f"el:{dname}.{vn.v}.{n.v}"
+
+
+def build_drivers(it, p, names=(("DevA", "DEVA"), ("DevB", "DEVB")), router=None, src=None):
     """-> {device name: driver Obj}.  Every object is produced by interpreting repository code."""
     import ast
+    import hashlib
     from ..absint import Cls, Fn, Frame, Tup
     from ..model import Undecided
 
-    if SYN_DEVICES_MOD not in p.modules:
-        p.add_synthetic_module(SYN_DEVICES_MOD, SYN_DEVICES_SRC)
-    mod = p.modules[SYN_DEVICES_MOD]
+    modname = SYN_DEVICES_MOD if src is None else SYN_DEVICES_MOD + "_" + hashlib.md5(src.encode()).hexdigest()[:10]
+    if modname not in p.modules:
+        p.add_synthetic_module(modname, src if src is not None else SYN_DEVICES_SRC)
+    mod = p.modules[modname]
     drv = p.cls("indi.device.driver.Driver")
     meta = p.cls("indi.device.driver.DriverMeta")
     gdef = p.cls("indi.device.properties.definition.group.Group")
@@ -96,10 +146,10 @@ def build_drivers(it, p, names=(("DevA", "DEVA"), ("DevB", "DEVB")), router=None
         m = fi.module.name
         if fi.name == "attach_event_handlers":
             return False
-        return m.startswith("indi.device.") or m == SYN_DEVICES_MOD or base_inline(fi, node)
+        return m.startswith("indi.device.") or m == modname or base_inline(fi, node)
 
     it.opts["inline"] = pol
-    it.opts["instantiate"] = lambda ci: ci.module.name.startswith("indi.device.") or ci.module.name == SYN_DEVICES_MOD
+    it.opts["instantiate"] = lambda ci: ci.module.name.startswith("indi.device.") or ci.module.name == modname
     it.opts["max_depth"] = 16
     it.opts["call_may_raise"] = None
     it.opts["assert_forks"] = False
@@ -107,7 +157,7 @@ def build_drivers(it, p, names=(("DevA", "DEVA"), ("DevB", "DEVB")), router=None
     fr = Frame(None, mod, {})
     out = {}
     try:
-        classes = [drv] + [p.cls(f"{SYN_DEVICES_MOD}.{c}") for c, _ in names]
+        classes = [drv] + [p.cls(f"{modname}.{c}") for c, _ in names]
         for ci in classes:
             ns = Dct(label=f"{ci.name}.namespace")
             ns.set(Const("__module__"), Const(ci.module.name))
@@ -126,28 +176,13 @@ def build_drivers(it, p, names=(("DevA", "DEVA"), ("DevB", "DEVB")), router=None
                 raise Undecided("DriverMeta.__new__ leaves no _group_definitions in the class namespace")
             it.heap[("cls:" + ci.qualname, "_group_definitions")] = tbl
         for cname, dname in names:
-            ci = p.cls(f"{SYN_DEVICES_MOD}.{cname}")
+            ci = p.cls(f"{modname}.{cname}")
             d = it.apply(Cls(ci), [], {"name": Const(dname), "router": router if router is not None else Const(None)}, [], None, fr, False)
             if not isinstance(d, Obj):
                 raise Undecided(f"construction of {cname} did not yield an abstract object")
             d.label = f"driver:{dname}"
             out[dname] = d
-        # label the vectors and elements for readable verdicts
-        for dname, d in out.items():
-            groups = d.attrs.get("_groups")
-            if isinstance(groups, Dct):
-                for _, g in groups.pairs:
-                    vs = g.attrs.get("_vectors") if isinstance(g, Obj) else None
-                    if isinstance(vs, Dct):
-                        for _, v in vs.pairs:
-                            if isinstance(v, Obj):
-                                vn = v.attrs["_definition"].attrs["name"].v if isinstance(v.attrs.get("_definition"), Obj) else "?"
-                                v.label = f"vec:{dname}.{vn}"
-                                els = v.attrs.get("_elements")
-                                if isinstance(els, Dct):
-                                    for _, e in els.pairs:
-                                        if isinstance(e, Obj) and isinstance(e.attrs.get("_definition"), Obj):
-                                            e.label = f"el:{dname}.{vn}.{e.attrs['_definition'].attrs['name'].v}"
+        label_world(it, p, out, fr)
         del it.events[:]
         return out
     finally:
